@@ -170,6 +170,9 @@ impl Dy {
         }
         Dy { neg: self.neg != o.neg, mag: mag_mul(&self.mag, &o.mag), exp: self.exp + o.exp }
     }
+    pub fn abs(&self) -> Dy {
+        Dy { neg: false, mag: self.mag.clone(), exp: self.exp }
+    }
     pub fn sq(&self) -> Dy {
         self.mul(self)
     }
@@ -226,6 +229,11 @@ pub fn near_line(l: &(Dy, Dy, Dy), px: f64, py: f64) -> Option<bool> {
     Some(e.sq().mul(&t7().sq()).le(&n2))
 }
 
+/// `|v - e| <= 4e-15 * bound`, decided exactly:  |v - e| * 10^15 <= 4 * bound  (the `pt` observations)
+pub fn within(v: &Dy, e: &Dy, bound: &Dy) -> bool {
+    v.sub(e).abs().mul(&Dy::from_u64(1_000_000_000_000_000)).le(&bound.mul(&Dy::from_u64(4)))
+}
+
 #[cfg(test)]
 mod tests {
     use super::*;
@@ -247,5 +255,10 @@ mod tests {
         let small = Dy::from_f64(1e-30).unwrap();
         assert!(big.add(&small).cmp(&big) == Ordering::Greater);
         assert!(big.sub(&big).is_zero());
+        let d = |x: f64| Dy::from_f64(x).unwrap();
+        // 0.1 + 0.2 rounded is within 4e-15 of the exact sum, 0.3 + 1e-12 is not
+        assert!(within(&d(0.1 + 0.2), &d(0.1).add(&d(0.2)), &d(0.3)));
+        assert!(!within(&d(0.3 + 1e-12), &d(0.1).add(&d(0.2)), &d(0.3)));
+        assert!(within(&d(-2.5), &d(-2.5), &Dy::zero()));
     }
 }
